@@ -41,7 +41,7 @@ class C03(Monitor):
                     self.fail('window-report', 'local_flow_control_window differs from the wire-derived window', s,
                               sid=sid, got=o[0], want=want)
                     break
-        if s.kind == 'call' and s.op == 'local_flow_control_window' and s.ok:
+        if s.kind == 'call' and s.op == 'local_flow_control_window' and s.ok and not trk.dead:
             st = trk.get(s.args['sid'])
             if st is not None and st.state != 'closed' and s.ret != min(trk.conn_send, st.send_win):
                 self.fail('window-report', 'local_flow_control_window differs from the wire-derived window', s,
